@@ -185,6 +185,7 @@ package migrate
 //@ ghost var GvcFiles []File
 //@ ghost var GvcRevs []*Revision
 //@ ghost var GvcCleanErr error
+//@ ghost var GvcCleanCalls int
 //@ spec func gvcLast() *Revision { return GvcRevs[len(GvcRevs)-1] }
 //@ spec func gvcHasRev(v string) bool { return (exists q int :: 0 <= q && q < len(GvcRevs) && GvcRevs[q].Version == v) }
 //@ spec func gvcNotClean(err error) bool { return errors.As(err, new(*NotCleanError)) }
@@ -203,7 +204,7 @@ package migrate
 //@   ensures err == nil ==> (forall i int, j int :: 0 <= i && i < j && j < len(rs) ==> rs[i].Version < rs[j].Version)
 //@ extern func (rw RevisionReadWriter) Ident() (t *TableIdent)
 //@ extern func (c CleanChecker) CheckClean(ctx context.Context, t *TableIdent) (err error)
-//@   effect GvcCleanErr = err
+//@   effect GvcCleanErr = err; GvcCleanCalls++
 //@   ensures gvcForeignErr(err)
 
 //@ func (e *Executor) ValidateDir(ctx context.Context) (err error)
@@ -217,10 +218,12 @@ package migrate
 
 //@ func (e *Executor) Pending(ctx context.Context) (fs []File, err error)
 //@   requires e != nil && e.dir != nil && e.rrw != nil && e.log != nil && e.drv != nil
-//@   modifies struct(Revision), GvcStore, GvcWrites, GvcFiles, GvcRevs, GvcCleanErr
+//@   modifies struct(Revision), GvcStore, GvcWrites, GvcFiles, GvcRevs, GvcCleanErr, GvcCleanCalls
 //@   ensures nothing-pending-is-an-error: err == nil ==> len(fs) > 0
 //@   ensures error-returns-no-files: err != nil ==> len(fs) == 0
-//@   ensures gate: len(GvcRevs) == 0 && gvcNotClean(GvcCleanErr) && !e.allowDirty && e.baselineVer == "" && GvcWrites != old(GvcWrites) ==> false
+//@   ensures gate: GvcCleanCalls != old(GvcCleanCalls) && gvcNotClean(GvcCleanErr) && !e.allowDirty && e.baselineVer == "" ==>
+//@           err != nil && gvcNotClean(err) && GvcWrites == old(GvcWrites)
+//@   ensures clean-check-only-on-first-run: GvcCleanCalls != old(GvcCleanCalls) ==> len(GvcRevs) == 0
 //@   ensures only-newer: err == nil && len(GvcRevs) > 0 && gvcLast().Applied == gvcLast().Total && e.order == ExecOrderLinear ==>
 //@           (forall p int :: 0 <= p && p < len(fs) ==> fs[p] != nil && !GvcIsCk(fs[p]) && fs[p].Version() > gvcLast().Version)
 //@   ensures all-newer: err == nil && len(GvcRevs) > 0 && gvcLast().Applied == gvcLast().Total && e.order == ExecOrderLinear ==>
